@@ -5,11 +5,12 @@ import os
 
 import vlib
 from vlib import gZ, gQ, gbool, glist
+from props.c17_gen import pregen  # noqa: F401  (translator tie of DepState.required_increment_from, see c17_gen.py)
 
 F = fractions.Fraction
 PID = 'C17'
 COQ_DIRS = ['common', 'C17']
-TARGETS = ['C17/Props.vo', 'C17/Corr.vo']
+TARGETS = ['C17/Props.vo', 'C17/Corr.vo', 'C17/GenEq.vo']
 MODEL_TARGETS = ['C17/Corr.vo']
 PROPS_FILE = 'C17/Props.v'
 PROPS_MODULE = 'QV.C17.Props'
